@@ -469,7 +469,7 @@ static int ec_edit(char *loc, char *cmd, char *arg, char *txt)
 	char pls[EXLEN];
 	char msg[128];
 	char *path;
-	int fd;
+	int fd, rd = 0;
 	if (!strchr(cmd, '!'))
 		if (xb && !xwa && bufs_modified(0, "buffer modified"))
 			return 1;
@@ -495,7 +495,7 @@ static int ec_edit(char *loc, char *cmd, char *arg, char *txt)
 	}
 	fd = open(ex_path(), O_RDONLY);
 	if (fd >= 0) {
-		int rd = lbuf_rd(xb, fd, 0, lbuf_len(xb));
+		rd = lbuf_rd(xb, fd, 0, lbuf_len(xb));
 		close(fd);
 		snprintf(msg, sizeof(msg), "\"%s\"  [=%d]  [r]",
 				ex_path(), lbuf_len(xb));
@@ -504,7 +504,9 @@ static int ec_edit(char *loc, char *cmd, char *arg, char *txt)
 		else
 			ex_show(msg);
 	}
-	lbuf_saved(xb, path[0] != '\0');
+	/* text that a failed reload left in place is not what the file holds */
+	if (fd >= 0 ? !rd : !lbuf_len(xb))
+		lbuf_saved(xb, path[0] != '\0');
 	bufs[0].mtime = mtime(ex_path());
 	xrow = MAX(0, MIN(xrow, lbuf_len(xb) - 1));
 	xoff = 0;
